@@ -25,6 +25,7 @@ RULE = (
     "matter, template globals and environment globals populated independently per name; path cases: dotted, bracketed, quoted, negative-index "
     "and nested-variable paths of length 1..4 with size/first/last over nested data under string_first_and_last / string_sequences flags. "
     "Non-trivial = program with >= 2 binding layers for a probed name, or a path of length >= 2; distinct by source+data."
+    " Rounds 5-6 added enumerated families: blocks abandoned by an error in tolerant modes (1080 programs); render as an isolated scope, nested up to four deep; keyword-spelled property names."
 )
 REQUIRED = [
     ("liquid/context.py", "RenderContext.get"),
